@@ -86,4 +86,9 @@ def fragments(repo: str, max_frags: int = 10) -> Any:
                 d = d[:p]
         return d
     arbitrary = st.text(alphabet=st.characters(), max_size=30)
-    return st.one_of(concat, concat, concat, mutated(), mutated(), arbitrary)
+    # characters that make a later stage (HTML writer / XML re-parse / encoding) fail although parsing succeeds, alone and
+    # combined with each other: the fallbacks must cope with all of them at once
+    breakers = st.sampled_from(['\xa0', '\uffff', '\ufffe', '\x0c', '\x00', '\x1b', '\x85', '\u2028', '\ud800', '\udfff', '\udc80', '\x7f', '\x0b', '\x1c'])
+    hard = st.tuples(st.lists(breakers, min_size=1, max_size=3), st.lists(frag, min_size=0, max_size=4)).flatmap(
+        lambda t: st.permutations(t[0] + t[1]).map(''.join))
+    return st.one_of(concat, concat, concat, mutated(), mutated(), arbitrary, hard, hard)
